@@ -1,5 +1,6 @@
 /- L0 facts about SlowStochastic::reset (split from Lemmas/SlowStochastic.lean so that a change to one method only invalidates the facts about that method) -/
 import TaRs.Lemmas.Core.SlowStochastic
+import TaRs.Lemmas.Total.SlowStochastic
 import TaRs.Lemmas.Reset.FastStochastic
 import TaRs.Lemmas.Reset.ExponentialMovingAverage
 set_option linter.unusedSectionVars false
@@ -22,11 +23,5 @@ theorem reset_eq (s : SlowStochastic F) (h : WF s) :
   unfold reset
   try simp only [gen_helper]
   simp [FastStochastic.reset_eq _ h.fast, ExponentialMovingAverage.reset_eq _ h.ema, fresh]
-
-theorem reset_wf (s : SlowStochastic F) (h : WF s) :
-    ∃ r, s.reset = some r ∧ WF r ∧
-      r.fast_stochastic.period = s.fast_stochastic.period ∧ r.ema.period = s.ema.period := by
-  have h8 : s.fast_stochastic.period * 8 ≤ isizeMax := h.fast.pmin ▸ h.fast.min.small
-  exact ⟨_, reset_eq s h, fresh_wf _ _ h.fast.pos h8 h.ema.pos, rfl, rfl⟩
 
 end TaRs.Gen.SlowStochastic
